@@ -245,66 +245,7 @@ func checkC02(ck *Check) {
 	}
 	ck.floor("C02.R1", "ACT calls in the scan body", len(acts), 3)
 
-	// R2 arming
-	{
-		fn := a.ScaleUp
-		sctx := ck.P.NewCtx(fn)
-		sg := ck.groupTerm(fn)
-		lockCalls := callsTo(fn, a.Lock)
-		cloudCalls := callsTo(fn, a.CloudStep)
-		if len(lockCalls) == 0 || len(cloudCalls) != 1 {
-			ck.fail("C02.R2", funcID(fn)+"/arming", "", funcID(fn), "ScaleUp calls the cloud step once and arms the lock", fmt.Sprintf("%d lock calls, %d cloud-step calls", len(lockCalls), len(cloudCalls)), "the lock is never armed after a cloud increase (or the cloud step is not unique)")
-		} else {
-			cloud := cloudCalls[0].(*ssa.Call)
-			errNil := cmpFormula(token.EQL, &Term{Kind: "extract", Name: "1", Args: []*Term{sctx.Term(cloud)}}, &Term{Kind: "const", Name: "nil"})
-			// find the exact atom used in the function (error-typed nil const)
-			for _, b := range fn.Blocks {
-				for _, at := range sctx.BlockPC(b).Atoms() {
-					if at.Kind == "cmp" && at.Name == "==" && hasConstStr(at, "nil") {
-						for _, x := range at.Args {
-							if isExtractOf(x, 1, func(t *Term) bool { return t.Key() == sctx.Term(cloud).Key() }) {
-								errNil = Atom(at)
-							}
-						}
-					}
-				}
-			}
-			for _, lc := range lockCalls {
-				key := ck.P.siteKey(lc)
-				ck.entails("C02.R2", key, lc, sctx.PC(lc), And(sctx.PC(cloud), errNil), "PC(lock) ⇒ the cloud step ran and returned err == nil")
-				recv := sctx.Term(lc.Common().Args[0])
-				if recv.Kind == "unop" {
-					recv = recv.Args[0]
-				}
-				okRecv := sg != nil && recv.Kind == "field" && recv.Obj == field(a.TState, "scaleUpLock") && recv.Args[0].Key() == sg.Key()
-				ck.cond(okRecv, "C02.R2", key+"/receiver", ck.P.instrPos(lc), funcID(fn), "the armed lock is this group's scaleUpLock", recv.String(), "")
-				ck.cond(dominatesInstr(cloud, lc), "C02.R2", key+"/order", ck.P.instrPos(lc), funcID(fn), "the cloud step precedes lock()", "", "the lock is armed before the cloud provider accepted the request")
-			}
-			// must-pass-through: every return reached after a successful cloud step has passed lock()
-			lockPC := FFalse
-			for _, lc := range lockCalls {
-				lockPC = Or(lockPC, sctx.PC(lc))
-			}
-			for _, b := range fn.Blocks {
-				r, ok := b.Instrs[len(b.Instrs)-1].(*ssa.Return)
-				if !ok {
-					continue
-				}
-				pre := And(sctx.BlockPC(b), sctx.PC(cloud), errNil)
-				if sat, _ := Satisfiable(pre); !sat {
-					continue
-				}
-				ck.entails("C02.R2", fmt.Sprintf("%s/return@block%d/armed", funcID(fn), b.Index), r, pre, lockPC, "every return after a successful cloud increase has passed through lock()")
-			}
-		}
-		var bad []string
-		for _, c := range ck.P.callers[a.Lock] {
-			if c != a.ScaleUp {
-				bad = append(bad, funcID(c))
-			}
-		}
-		ck.cond(len(bad) == 0, "C02.R2", "lock/callers", "", funcID(a.Lock), "lock() is called only by ScaleUp", strings.Join(bad, ", "), "the lock is armed from "+strings.Join(bad, ", "))
-	}
+	ck.armingRule("C02.R2")
 
 	ck.lockBodies("C02.R3")
 	ck.lockConstruction("C02.R4")
@@ -432,6 +373,71 @@ func (ck *Check) armedLast(rule string) {
 		}
 	}
 	ck.floor(rule, "calls in the scan body that can arm the lock", nArm, 1)
+}
+
+
+// armingRule (C02.R2, also C18.R5): the lock is armed only after the cloud step ran and returned
+// no error, on this group's own lock, after the cloud step; every return after a successful cloud
+// increase has passed through lock(); lock() has no other caller.
+func (ck *Check) armingRule(rule string) {
+	a := ck.A
+		fn := a.ScaleUp
+		sctx := ck.P.NewCtx(fn)
+		sg := ck.groupTerm(fn)
+		lockCalls := callsTo(fn, a.Lock)
+		cloudCalls := callsTo(fn, a.CloudStep)
+		if len(lockCalls) == 0 || len(cloudCalls) != 1 {
+			ck.fail(rule, funcID(fn)+"/arming", "", funcID(fn), "ScaleUp calls the cloud step once and arms the lock", fmt.Sprintf("%d lock calls, %d cloud-step calls", len(lockCalls), len(cloudCalls)), "the lock is never armed after a cloud increase (or the cloud step is not unique)")
+		} else {
+			cloud := cloudCalls[0].(*ssa.Call)
+			errNil := cmpFormula(token.EQL, &Term{Kind: "extract", Name: "1", Args: []*Term{sctx.Term(cloud)}}, &Term{Kind: "const", Name: "nil"})
+			// find the exact atom used in the function (error-typed nil const)
+			for _, b := range fn.Blocks {
+				for _, at := range sctx.BlockPC(b).Atoms() {
+					if at.Kind == "cmp" && at.Name == "==" && hasConstStr(at, "nil") {
+						for _, x := range at.Args {
+							if isExtractOf(x, 1, func(t *Term) bool { return t.Key() == sctx.Term(cloud).Key() }) {
+								errNil = Atom(at)
+							}
+						}
+					}
+				}
+			}
+			for _, lc := range lockCalls {
+				key := ck.P.siteKey(lc)
+				ck.entails(rule, key, lc, sctx.PC(lc), And(sctx.PC(cloud), errNil), "PC(lock) ⇒ the cloud step ran and returned err == nil")
+				recv := sctx.Term(lc.Common().Args[0])
+				if recv.Kind == "unop" {
+					recv = recv.Args[0]
+				}
+				okRecv := sg != nil && recv.Kind == "field" && recv.Obj == field(a.TState, "scaleUpLock") && recv.Args[0].Key() == sg.Key()
+				ck.cond(okRecv, rule, key+"/receiver", ck.P.instrPos(lc), funcID(fn), "the armed lock is this group's scaleUpLock", recv.String(), "")
+				ck.cond(dominatesInstr(cloud, lc), rule, key+"/order", ck.P.instrPos(lc), funcID(fn), "the cloud step precedes lock()", "", "the lock is armed before the cloud provider accepted the request")
+			}
+			// must-pass-through: every return reached after a successful cloud step has passed lock()
+			lockPC := FFalse
+			for _, lc := range lockCalls {
+				lockPC = Or(lockPC, sctx.PC(lc))
+			}
+			for _, b := range fn.Blocks {
+				r, ok := b.Instrs[len(b.Instrs)-1].(*ssa.Return)
+				if !ok {
+					continue
+				}
+				pre := And(sctx.BlockPC(b), sctx.PC(cloud), errNil)
+				if sat, _ := Satisfiable(pre); !sat {
+					continue
+				}
+				ck.entails(rule, fmt.Sprintf("%s/return@block%d/armed", funcID(fn), b.Index), r, pre, lockPC, "every return after a successful cloud increase has passed through lock()")
+			}
+		}
+		var bad []string
+		for _, c := range ck.P.callers[a.Lock] {
+			if c != a.ScaleUp {
+				bad = append(bad, funcID(c))
+			}
+		}
+		ck.cond(len(bad) == 0, rule, "lock/callers", "", funcID(a.Lock), "lock() is called only by ScaleUp", strings.Join(bad, ", "), "the lock is armed from "+strings.Join(bad, ", "))
 }
 
 // lockBodies: C02.R3 and R5.
